@@ -106,11 +106,11 @@ func (ru *c15Run) announce(list []c15Ann) error {
 func (ru *c15Run) doReset(racing bool) error {
 	c := ru.c
 	if c.reset.Kind == "route-refresh" {
-		// while route changes race the refresh, ask three times (a refresh is idempotent): more
+		// while route changes race the refresh, ask six times (a refresh is idempotent): more
 		// chances for a full re-advertisement to overlap the incremental fan-out
 		rounds := 1
 		if racing {
-			rounds = 3
+			rounds = 6
 		}
 		for k := 0; k < rounds; k++ {
 			for i, ps := range c.peers {
@@ -399,7 +399,7 @@ func c15Compare(a, b, base *c15Snap, only func(view string) bool) []c15Diff {
 // Loc-RIB and the export policy gobgp evaluates now. So a difference whose most upstream view is
 // adj-in / adj-out says that the policy in force is not P2 (the change, not the reset, is at fault).
 var c15ViewPrio = []string{"adj-in-raw", "adj-in", "loc-rib", "rs-loc-rib", "adj-out", "wire"}
-var c15HowPrio = []string{"stale-route-not-withdrawn", "newly-accepted-missing", "changed-attrs-not-updated", "route-lost", "spurious-route", "wrong-attrs",
+var c15HowPrio = []string{"withdrawn-prefix-still-held", "stale-route-not-withdrawn", "newly-accepted-missing", "changed-attrs-not-updated", "route-lost", "spurious-route", "wrong-attrs",
 	"stale-route", "missing-route", "attrs-differ", "best-differs", "filtered-flag-differs"}
 
 // c15Pick names the most upstream view that differs and, within it, the most telling difference.
@@ -872,6 +872,23 @@ func c15Pair(t *testing.T, rec *vlib.Rec, idx int) {
 	// base = the state under P1 on the same inputs (run A before the change; in racing cases a fresh
 	// run with P1 on the final inputs): it tells a leftover of P1 from any other difference.
 	if ds := c15Compare(a.a2, b, p1eval, untainted); len(ds) > 0 {
+		// whatever the policies: nobody may hold a prefix that no speaker announces any more
+		announced := map[string]bool{}
+		for _, an := range c.final {
+			announced[an.Spec.Prefix] = true
+		}
+		for i := range ds {
+			if ds[i].B != "-" {
+				continue
+			}
+			pfx := ds[i].Key[strings.IndexByte(ds[i].Key, '/')+1:]
+			if j := strings.IndexByte(pfx, '|'); j >= 0 {
+				pfx = pfx[:j]
+			}
+			if !announced[pfx] {
+				ds[i].How = "withdrawn-prefix-still-held"
+			}
+		}
 		view, _ := c15Pick(ds)
 		hows := map[string][]c15Diff{}
 		for _, d := range ds {
